@@ -86,15 +86,25 @@ CLAIMED["C04"] = dict(
          "over the whole run + progress measure = total correctness); and for ANY NUMBER of AT TIME controls at pairwise distinct instants (any "
          "targets, values, priorities, grids; no rules) every solved step shows on every link the command of the latest control whose instant "
          "has been reached, no instant at which a control changes a status is stepped over, and the run exists and ends at the duration "
-         "(C04/AtTimeSet.v: the two stable sorts as sorted permutations, the presolve loop over the sorted list, the steps). The model also "
+         "(C04/AtTimeSet.v: the two stable sorts as sorted permutations, the presolve loop over the sorted list, the steps); and with COINCIDING "
+         "instants allowed -- the complete semantics of simple time controls: the winner on a link is the control with the latest instant, "
+         "then the highest priority, then the last registered (C04/AtTimeAll.v: the two stable sorts yield THE list sorted lexicographically "
+         "by (instant, priority, registration), groups of equal instants as run_same_backtrack takes them, the loop group by group, total "
+         "correctness); and ANY set of rules IF SYSTEM TIME >= thr THEN link := v (priorities, shared targets): every solved step shows on each "
+         "link the highest-priority (then last registered) rule among those true at the last multiple of the rule step, no rule instant that "
+         "changes a status is stepped over, total correctness (C04/RuleSet.v); and CONTROLS AND RULES TOGETHER (C04/Mixed.v): for any AT TIME "
+         "controls and any TIME >= rules the statuses at every solved step are those of an explicit per-link specification (a control since the "
+         "last rule instant wins, else the winning true rule, else the latest control, else the initial status; at a coinciding instant "
+         "controls act after the rules), and at EVERY time up to the end of the run the specification gives the statuses of the latest solved "
+         "step -- nothing that changes a status is stepped over; total correctness; proof through the three branches of the presolve loop. The model also "
          "proves (by evaluation) what the CURRENT code does wrong: daily clock-time controls act at 2x the threshold, 'before' clock "
          "conditions are never true, rules are evaluated at t=0 -- recorded as known findings. Tie decided inside coqc: the (time, status) "
          "trace of the real simulator equals Sched.run for every generated configuration of controls and rules (exact).",
     ref="DESIGN.md section 5 C04, Appendix A",
     note="Trusted: Coq kernel (axiom-free); harness building the same configuration through the API and as a Gallina term. Modelled not "
          "verified: sim_time as a float holding integers; the hydraulic solve (irrelevant to time conditions; trivial network). Partial: the "
-         "closed whole-run proofs cover any set of AT TIME controls at distinct instants without rules, an on/off window, one TIME >= rule and two "
-         "same-instant controls of different priority; for sets mixing rules, clock-time and repeating conditions or coinciding instants the whole-run behaviour is established by exact trace equality on generated configurations plus the "
+         "closed whole-run proofs cover every set of AT TIME controls without rules (coinciding instants and priorities included), every set of TIME >= rules, and both mixed; for clock-time, repeating, <, <= and compound conditions and for rules with ELSE parts or "
+         "several actions the whole-run behaviour is established by exact trace equality on generated configurations plus the "
          "lemma-level proofs (no general functional specification of the loop is proved).",
     technique="Coq proof (arithmetic/case analysis on a transcribed scheduler, vm_compute witnesses) + exact trace correspondence")
 
@@ -281,7 +291,9 @@ CLAIMED["C10"] = dict(
          "(whose backtracks are wrong in the code, C04 findings) it stays a per-case check; an on/off window of two AT TIME controls (a leak) paused ANYWHERE and continued by a new simulator object keeps the target on exactly on "
          "[ts, te) with steps solved at ts and te after the pause (C10_window_survives_pause, a functional statement across the restart), and so does "
          "ANY set of AT TIME controls at distinct instants (C10_control_set_survives_pause: every solved step of both parts shows the command of "
-         "the latest control reached, nothing before the pause is revisited, no changing instant after it is stepped over); "
+         "the latest control reached, nothing before the pause is revisited, no changing instant after it is stepped over; with coinciding instants "
+         "too: C10_all_time_controls_survive_pause; and for controls AND TIME >= rules together the restart state is PROVED identical to the paused "
+         "state, with the specified statuses at every step and every time of both parts: C10_controls_and_rules_survive_pause); "
          "for the same fragment the solved times are PROVED strictly "
          "increasing in one run and across a pause (a time is never revisited); with the index "
          "restarted at 0 (the behaviour before the fix) the model provably steps back to t = 0. Ties decided inside coqc: for generated "
